@@ -124,6 +124,7 @@ def r2_roundtrip(a, tier):
         ('Token with newline escape', T('a\nb'), ('tok', 'a\nb')),
         ('Pattern plain', Stub(Q['Pattern'], pattern=r'\d+'), ('pat', r'\d+')),
         ('Pattern with slash', Stub(Q['Pattern'], pattern=r'a/b'), ('pat', r'a/b')),
+        ('Pattern of one dot (/./ is the any-character atom, which does not skip whitespace)', Stub(Q['Pattern'], pattern='.'), ('pat', '.')),
         ('Pattern with slash and double quote', Stub(Q['Pattern'], pattern=r'a/"b'), ('pat', r'a/"b')),
         ('Call', C('expr'), ('call', 'expr')),
         ('Dot', Stub(Q['Dot']), ('dot',)),
@@ -434,4 +435,89 @@ def r4_display_width(a, tier):
     return rep
 
 
-RULES = [r_chain, r1_printers, r2_roundtrip, r3_nothing_dropped, r4_display_width]
+def r5_antlr_models(a, tier):
+    from ..minieval import Obj
+    from .c01_optimizer import ir as stub_ir
+    rep = RuleReport(
+        'C13.R5',
+        'models translated from ANTLR print to text that reads back as the same expression: the operator actions of '
+        'g2e.ANTLRSemantics (subexp, negative, optional, closure, positive_closure, named, elements, alternatives), interpreted on '
+        'stand-in operands and composed the way tatsu/g2e/antlr.tatsu composes them (an atom is a terminal, a call, a parenthesised '
+        'sub-expression or ~atom; name=atom, atom?, atom*, atom+; sequences of elements; alternatives), build model trees whose '
+        '_pretty text (interpreted) is read by the checker\'s reader of the grammar language back to the tree that was built: no '
+        'operator ends up binding a different operand in the printed text than in the model',
+        floor=60,
+    )
+    SEM = 'tatsu.g2e.semantics.ANTLRSemantics'
+    a.p.cls(SEM)
+    fields = {'Pattern': ['pattern'], 'Token': ['token'], 'Call': ['name'], 'Group': ['exp'], 'Grammar': ['name', 'rules']}
+
+    def mk(kind):
+        q = Q.get(kind) or f'tatsu.peg.{kind}'
+
+        def build(*args, **kw):
+            for n, v in zip(fields.get(kind, ['exp']), args):
+                kw[n] = v
+            return Stub(q, **kw)
+        return Hook(build, q=q)
+    kinds = ['Group', 'Optional', 'Closure', 'PositiveClosure', 'NegativeLookahead', 'Lookahead', 'Pattern', 'Sequence', 'Choice', 'Option',
+             'Named', 'NamedList', 'Token', 'Call', 'Void', 'EOF', 'Fail', 'SkipTo', 'Override']
+    g = Hook(None, **{k: mk(k) for k in kinds})
+    sem = Stub(SEM, name='T', tokens={}, token_rules={}, synthetic_rules=[])
+
+    def act(name, arg):
+        it = ModelInterp(a, {'g': g})
+        try:
+            return it.apply(it.get_attr(sem, name), [arg], {})
+        except Unsupported as e:
+            raise AnalysisError(f'C13.R5: cannot interpret ANTLRSemantics.{name}: {e}') from e
+    T = lambda s: Stub(Q['Token'], token=s)  # noqa: E731
+    terminals = [('\'a\'', lambda: T('a')), ('r', lambda: Stub(Q['Call'], name='r'))]
+    subexps = [
+        ("('ab' | 'cd')", lambda: act('subexp', act('alternatives', Obj(options=[T('ab'), T('cd')])))),
+        ("('a' r)", lambda: act('subexp', act('elements', [T('a'), Stub(Q['Call'], name='r')]))),
+        ("('a')", lambda: act('subexp', T('a'))),
+    ]
+    atoms0 = terminals + subexps
+    atoms1 = atoms0 + [(f'~{n}', (lambda mkx=mkx: act('negative', mkx()))) for n, mkx in atoms0]
+    atoms = atoms1 + [(f'~{n}', (lambda mkx=mkx: act('negative', mkx()))) for n, mkx in atoms1[len(atoms0):]]
+    elements = list(atoms)
+    for n, mkx in atoms:
+        elements.append((f'x={n}', lambda mkx=mkx: act('named', Obj(name='x', exp=mkx(), force_list=None))))
+        elements.append((f'x+={n}', lambda mkx=mkx: act('named', Obj(name='x', exp=mkx(), force_list='+='))))
+        elements.append((f'{n}?', lambda mkx=mkx: act('optional', mkx())))
+        elements.append((f'{n}*', lambda mkx=mkx: act('closure', mkx())))
+        elements.append((f'{n}+', lambda mkx=mkx: act('positive_closure', mkx())))
+        elements.append((f'{n}*?', lambda mkx=mkx: act('optional', act('closure', mkx()))))
+    cases = list(elements)
+    picks = elements if tier == 'thorough' else elements[::3]
+    for n, mkx in picks:
+        cases.append((f"'p' {n} 'q'", lambda mkx=mkx: act('elements', [T('p'), mkx(), T('q')])))
+        cases.append((f"'p' {n} | 'z'", lambda mkx=mkx: act('alternatives', Obj(options=[act('elements', [T('p'), mkx()]), T('z')]))))
+        cases.append((f"~('p' {n} | 'z') 'q'", lambda mkx=mkx: act('elements', [act('negative', act('subexp', act('alternatives', Obj(
+            options=[act('elements', [T('p'), mkx()]), T('z')])))), T('q')])))
+    n_bad = 0
+    for what, build in cases:
+        node = build()
+        if not isinstance(node, Stub):
+            raise AnalysisError(f'C13.R5: the actions build {type(node).__name__} for {what}')
+        want = canon(stub_ir(node))
+        try:
+            text = _pretty(a, node)
+        except Unsupported as e:
+            raise AnalysisError(f'C13.R5: cannot interpret the printers on the model of {what}: {e}') from e
+        try:
+            got, err = canon(_read_expr(str(text), _lexicon(a))), None
+        except FrontEndError as e:
+            got, err = None, str(e)
+        ok = got == want
+        rep.add({'antlr': what, 'printed': text, 'ok': ok})
+        if not ok and n_bad < 8:
+            n_bad += 1
+            rep.fail(f'{SEM}', f'antlr:{what}', f'ANTLR `{what}` is translated to a model that prints as `{text}`, ' + (
+                f'which the grammar language cannot read ({err})' if err else f'which reads back as {got}, not as the model built, {want}')
+                + ': the pretty-printed translation does not recompile to the same parser', a.p.cls(SEM).loc)
+    return rep
+
+
+RULES = [r_chain, r1_printers, r2_roundtrip, r3_nothing_dropped, r4_display_width, r5_antlr_models]
